@@ -53,10 +53,10 @@ def drive(a, rng, nuc_only):
         nodes = S
     elif mode < 0.6:
         nodes = rng.sample(S, rng.randint(0, len(S))) if S else []
-        nodes_arg = nodes
+        nodes_arg = gen.arg_form(rng, nodes)
     else:
         nodes = rng.sample(range(N), rng.randint(1, N))
-        nodes_arg = nodes
+        nodes_arg = gen.arg_form(rng, nodes)
         if any(not a["flags"][u] for u in nodes):
             iam = False     # the library refuses non-sample nodes with isolated_as_missing (documented error)
     case = dict(ts=dict(a), nodes=list(nodes), iam=1 if iam else 0, decodes=[], maps=[cmap.kind, tmap.kind, tmap.offset])
